@@ -14,3 +14,13 @@ claim("C18", "proof",
       "typestate dataflow on a CFG with exception edges + who-may-write census", "DESIGN.md §4 C18")
 for _p in ["C12", "C18"]:
     NA.pop(_p, None)
+claim("C19", "other",
+      "Commit-at-end on the CFG with exception edges: the single store to the pattern contents lies on every normal path, no user-supplied call is reachable after it, the failure edge of every user call reaches no commit, the working copy's depth covers the store depth, and every function that installs contents establishes note.pattern = self for all installed notes. Every failure position is covered because each user call carries an exception edge; only the user callable's own behaviour is outside the claim.",
+      "trusted: sa/cfg.py, copy-depth table of DESIGN Appendix B",
+      "CFG dominance/reachability + copy-depth vs store-depth + ownership establishment", "DESIGN.md §4 C19")
+claim("C07", "other",
+      "Project.connect is analysed path by path: no early exit from or partial iteration of the operand loops, no loop-carried local between pair iterations, the four parallel tables mutated pairwise and on both ends on every path, cross-referencing slot values proved in a list-length symbolic domain, ownership look-ups dominating all mutations; operator siblings compared; census of every link-table writer in rv. The per-operation obligations give the reachable-state invariant by induction; equality of the connection set with an arbitrary request sequence depends on list contents and is declined.",
+      "trusted: sa/cfg.py path enumeration, list.append/index semantics",
+      "path enumeration over a CFG + list-length symbolic domain + who-may-write census", "DESIGN.md §4 C07")
+for _p in ["C07", "C19"]:
+    NA.pop(_p, None)
